@@ -53,6 +53,13 @@ func (r *runner) do(op Op) (class int) {
 		m.steps = append(m.steps, fmt.Sprintf("(%s, %d, %s)", a.coqOp, a.class, post.deltas(r.pre[a.mod])))
 		m.nsteps++
 		r.rep.Count("op=" + op.K + fmt.Sprintf("/class=%d", a.class))
+		if os.Getenv("C13_DEBUG") != "" && a.class != 0 {
+			e := a.err
+			if i := strings.Index(e, ":"); i > 0 && len(e) > 60 {
+				e = e[:60]
+			}
+			r.rep.Count("err/" + op.K + "/" + e)
+		}
 		var vio []violation
 		vio = append(vio, checkStep(op, a.class, r.pre[a.mod], post)...)
 		vio = append(vio, checkState(post)...)
@@ -108,12 +115,12 @@ func main() {
 		replay(rep)
 		return
 	}
-	n := 14
+	n := 40
 	if lib.Tier() == "thorough" {
-		n = 120
+		n = 400
 	}
 	if mode == "search" {
-		n = 60
+		n = 150
 	}
 	if v := lib.EnvInt("VERIF_N", 0); v > 0 {
 		n = int(v)
@@ -128,12 +135,17 @@ func main() {
 		rep.Case(fmt.Sprintf("scripted-%d", i), true)
 		items = append(items, r.coqCases()...)
 	}
+	callsOK := bridgeCallLoopSafe()
+	if !callsOK {
+		rep.Notes = append(rep.Notes, "bridgeCallSlashing panics in the end blocker (property C07): the random histories create no outgoing bridge calls")
+	}
 	rng := lib.NewRand(seed)
 	for i := 0; i < n; i++ {
 		hseed := rng.Int63()
 		mods := []string{"eth", secondModules[i%len(secondModules)]}
 		r := newRunner(hseed, mods, rep)
 		g := newGen(lib.NewRand(hseed), r, i)
+		g.calls = callsOK
 		g.run()
 		key, _ := json.Marshal(r.hist.Ops)
 		rep.Case(string(key), g.sawSlash || g.sawRemoval)
@@ -151,6 +163,23 @@ func main() {
 	}
 	lib.WriteCases("Cases_C13.v", []string{"model.M_OracleReg", "model.M_OracleRegCorr"}, "orc_case", items, "orc_mismatch")
 	rep.Write()
+}
+
+// bridgeCallLoopSafe: on a throw-away chain, does the end blocker survive the signed window elapsing over an
+// unconfirmed outgoing bridge call?  (It panicked before the C07 fix; C13's histories then avoid bridge calls.)
+func bridgeCallLoopSafe() bool {
+	r := newRunner(4242, []string{"eth"}, lib.NewReport("probe"))
+	ops := []Op{{K: "fund", A: 0, Amt: fx(300000)}, {K: "params", P: []string{fx(10000), "10", "800000000000000000", "2"}},
+		{K: "gov", L: []int{0}}, {K: "bond", A: 0, B: 100, E: 200, V: 0, Amt: fx(10000)}, {K: "block"}, {K: "addcall"}}
+	for _, op := range ops {
+		r.w.apply(op)
+	}
+	for i := 0; i < 5; i++ {
+		if res := r.w.apply(Op{K: "block"}); res[0].class == 2 {
+			return false
+		}
+	}
+	return true
 }
 
 func replay(rep *lib.Report) {
